@@ -982,10 +982,18 @@ def py_prelude(kind):
     def bad(construct, detail, line):
         findings.append(dict(rule="REFUSAL-PRELUDE", function=where, file=REL, line=line,
                              construct=construct, detail=detail, path=[]))
+    def _named(t):
+        """a test given as a local that names the condition"""
+        if isinstance(t, ast.Name):
+            ds = [a.value for st in fn.body for a in ast.walk(st) if isinstance(a, ast.Assign)
+                  and len(a.targets) == 1 and isinstance(a.targets[0], ast.Name) and a.targets[0].id == t.id]
+            if len(ds) == 1:
+                return ds[0]
+        return t
     if g0 is None or g0[0] > first_loop:
         bad("successor refusal (0) missing", "a changed successor link must refuse with reason 0 before the walk", fn.lineno)
     else:
-        t = g0[1].test
+        t = _named(g0[1].test)
         pairs = []
         ok = isinstance(t, ast.BoolOp) and isinstance(t.op, ast.Or)
         for c in (t.values if ok else [t]):
@@ -1001,7 +1009,7 @@ def py_prelude(kind):
     if g12 is None or g12[0] > first_loop or (g0 and g12[0] < g0[0]):
         bad("empty-side refusal (12) missing or misplaced", "must refuse with reason 12 when the committed or the new state is empty, after the successor check and before the walk", fn.lineno)
     else:
-        t = g12[1].test
+        t = _named(g12[1].test)
         names = sorted(pyfront.unparse(v.operand) for v in (t.values if isinstance(t, ast.BoolOp) else [t])
                        if isinstance(v, ast.UnaryOp) and isinstance(v.op, ast.Not))
         if not (isinstance(t, ast.BoolOp) and isinstance(t.op, ast.Or) and names == ["b_com", "b_new"]):
